@@ -115,6 +115,7 @@ OPT_TABLE = {
     "ign_reason": ["-", "-", "sc=1,ss=1,ig=1"],
     "gi::inherit": ["-", "-", "sc=1,ss=1,ig=1", "-"],
     "gi::unignored": ["-", "-", "sc=1,ss=1,ig=1", "ig=0"],
+    "io::read": ["-", "-", "-", "-"],        # the group on platform::linux::io (no benchmarks below it) does not enclose it
     "g1::inherit": ["-", "-", G1, "-"],
     "g1::size5": ["-", "-", G1, "ss=5"],
     "g1::g2::inherit": ["-", "-", G1, G2, "-"],
